@@ -112,6 +112,11 @@ class ContractMixin:
         for m in mods:
             if m == 'nothing':
                 continue
+            if m.startswith('*'):
+                # class-wide: every instance of the class, field (or '*')
+                cls, _, field = m[1:].rpartition('.')
+                out.append((SV(TRef(self.classes.canon(cls)), None), None if field == '*' else field, 'ALL'))
+                continue
             base, _, field = m.rpartition('.')
             tmp = st.copy()
             tmp.env = dict(env)
@@ -151,6 +156,9 @@ class ContractMixin:
                             todo.append((f, dc, fty))
             for f, dc, fty in todo:
                 arr = self.heap_array(st, (dc, f), fty)
+                if guard == 'ALL':
+                    st.heap[(dc, f)] = z3.Const(self.fresh_sym('H_%s' % f), arr.sort())
+                    continue
                 nv = fresh(fty, 'hv_' + f)
                 newarr = z3.Store(arr, ref.t, box(nv))
                 st.heap[(dc, f)] = newarr if guard is None else z3.If(guard, newarr, arr)
@@ -160,8 +168,15 @@ class ContractMixin:
         if self.frame is None:
             return
         for ref, field, guard in locs:
+            if guard == 'ALL':
+                ok = any(isinstance(x[0], str) and x[0] == 'ALL' and x[2] == ref.ty.cls
+                         and (x[1] is None or x[1] == field) for x in self.frame)
+                self.oblige(st, z3.BoolVal(ok), 'frame', 'call-%s:*%s' % (cname.split('.')[-1], ref.ty.cls), node=node,
+                            carries=self.frame_carries,
+                            info={'claim': 'class-wide effect of %s on %s is within this function\'s modifies clause' % (cname, ref.ty.cls)})
+                continue
             allowed = [ref.t >= st.alloc0]
-            for (r, fk) in self.frame:
+            for (r, fk) in [(x[0], x[1]) for x in self.frame if not isinstance(x[0], str)]:
                 if fk is None or field is not None and (fk == field or (isinstance(fk, tuple) and fk[1] == field)):
                     allowed.append(ref.t == r)
             claim = z3.Or(allowed)
@@ -204,11 +219,9 @@ class ContractMixin:
                 continue
             self.havoc_locations(s2, c.modifies, pre, env)
             s2.alloc = self.fresh_alloc(s2)
-            cls = self.classes.canon(r.cls)
-            opaque = cls.endswith('+')
-            if opaque:
-                cls = cls[:-1]
-            ex = self.new_object(s2, cls)
+            opaque = r.cls.endswith('+')
+            cls = self.classes.canon(r.cls.rstrip('+'))
+            ex = self.new_object(s2, cls, defaults=False)
             if opaque:
                 # dynamic class: any subclass
                 tag = fresh(TInt, 'exc_cls').t
@@ -218,6 +231,8 @@ class ContractMixin:
             extra['exc'] = ex
             for cl in r.then:
                 s2.assume(self.eval_contract_expr(s2, cl.expr, extra, pre, use_env=extra))
+            if r.then and not self.feasible(s2):
+                raise OutsideSubset('exceptional postcondition %s of %s is contradictory' % (r.label, c.qualname))
             s2.flow = 'raise'
             s2.exc = ExcInfo(cls, ex, opaque)
             outs.append((s2, None))
@@ -242,6 +257,10 @@ class ContractMixin:
         extra['result'] = res
         for cl in c.ensures:
             st.assume(self.eval_contract_expr(st, cl.expr, extra, pre, use_env=extra))
+        if c.ensures and not self.feasible(st):
+            # either the path was already dead or the contract is contradictory; tell them apart
+            if self.feasible(pre):
+                raise OutsideSubset('postcondition of %s is contradictory at this call' % c.qualname)
         outs.append((st, res))
         return outs
 
@@ -280,15 +299,16 @@ class ContractMixin:
             if extra:
                 env.update(extra)
             tmp.env = env
-        saved = (self.in_contract, self.old_state)
+        saved = (self.in_contract, self.old_state, self.contract_env)
         self.in_contract = True
+        self.contract_env = use_env
         if old_state is not None:
             self.old_state = old_state
         base_pc = len(tmp.pc)
         try:
             res = self.eval(tmp, node)
         finally:
-            self.in_contract, self.old_state = saved
+            self.in_contract, self.old_state, self.contract_env = saved
         # definitional facts discovered while evaluating are valid on the real path too
         for s2, _ in res:
             for f in s2.facts:
@@ -317,14 +337,15 @@ class ContractMixin:
             if self.old_state is None:
                 raise OutsideSubset('old() without a pre-state')
             tmp = self.old_state.copy()
-            tmp.env = dict(self.entry_env or {})
-            tmp.env.update({k: v for k, v in st.env.items() if k not in tmp.env or k in ('result', 'exc')})
-            # names in old() refer to entry values of parameters
-            for k, v in (self.entry_env or {}).items():
-                tmp.env[k] = v
-            for k, v in st.env.items():
-                if k not in tmp.env:
-                    tmp.env[k] = v
+            if self.contract_env is not None:
+                # a callee's contract at a call site: its own parameter bindings
+                tmp.env = dict(st.env)
+            else:
+                tmp.env = dict(self.entry_env or {})
+                # names in old() refer to entry values of parameters
+                for k, v in st.env.items():
+                    if k not in tmp.env:
+                        tmp.env[k] = v
             tmp.pc = st.pc
             tmp.facts = st.facts
             res = self.eval(tmp, e.args[0])
@@ -335,6 +356,22 @@ class ContractMixin:
                 s3.facts = s2.facts
                 out.append((s3, v))
             return out
+        if name == 'updated':
+            outs = []
+            for s2, (m, k, v) in self.eval_many(st, e.args):
+                m = self.need_value(m)
+                outs.append((s2, self.map_set(m, self.need_value(k), self.need_value(v))))
+            return outs
+        if name == 'keys':
+            outs = []
+            for s2, v in self.eval(st, e.args[0]):
+                v = self.need_value(v)
+                if isinstance(v.ty, TRef) and v.ty.cls.startswith('dict:'):
+                    v = self.read_field(s2, v, v.ty.cls, 'items')
+                if not isinstance(v.ty, TMap):
+                    raise OutsideSubset('keys() of ' + str(v.ty))
+                outs.append((s2, SV(TSeq(v.ty.k), v.ty.keys(v.t))))
+            return outs
         if name == 'val':
             outs = []
             for s2, v in self.eval(st, e.args[0]):
